@@ -79,7 +79,7 @@ def slots_of_step(step):
 
 def trace_slot(slot):
     """the part of a slot that goes into a TLC trace event (no floats, no free text)"""
-    keep = ("k", "q", "irr", "cur", "u", "d", "s", "day", "sod", "off", "zone", "nt", "parts", "digits", "pr")
+    keep = ("k", "q", "irr", "cur", "u", "d", "s", "day", "sod", "off", "zone", "nt", "parts", "digits", "pr", "ts")
     return {k: slot[k] for k in keep if k in slot}
 
 
@@ -186,3 +186,16 @@ def date_printed(out, lang):
         except Exception:
             continue
     return [-1, -1, -1]
+
+
+def ts_split(x):
+    return [x // 86400, x % 86400]
+
+
+def datetime_printed(out, lang):
+    """'1 Jan 2020 01:12:13 UTC' / '1 January 01:12:13 UTC' -> [day, month, year or 0, wall second of day, zone]"""
+    m = re.match(r"^(.*?) (\d\d):(\d\d):(\d\d)(?: (\S+))?$", out.strip())
+    if not m:
+        return [-1, -1, -1, -1, "unparsed"]
+    d = date_printed(m.group(1), lang)
+    return d + [int(m.group(2)) * 3600 + int(m.group(3)) * 60 + int(m.group(4)), m.group(5) or ""]
